@@ -145,7 +145,7 @@ def c24_4(cx):
 PQ = "zalsa_local::PackedQueryEdge::"
 
 
-@ob("C25.1", ["C25", "C07"], "masks and shifts that disagree between the writer and the reader decode another generation or ingredient than was stored", kind="CONST")
+@ob("C25.1", ["C25", "C07", "C01"], "masks and shifts that disagree between the writer and the reader decode another generation or ingredient than was stored", kind="CONST")
 def c25_1(cx):
     """GENERATION_MASK + 1 == 1 << INGREDIENT_SHIFT; INGREDIENT_MASK == u32::MAX >> INGREDIENT_SHIFT; INGREDIENT_MASK <= IngredientIndex::MAX_INDEX == (1<<31)-1; KIND_MASK, LAYOUT_MASK, WITH_EXTRA_MASK pairwise disjoint."""
     f = cx.facts
@@ -168,7 +168,7 @@ def c25_1(cx):
     cx.check(f.const("id::Id::MAX_U32") is not None, "Id::MAX_U32 evaluated", body=b, key="id-max")
 
 
-@ob("C25.2", ["C25", "C07"], "an encoder that accepts a value it cannot represent (or a decoder using another mask) silently changes the stored edge", kind="FLOW")
+@ob("C25.2", ["C25", "C07", "C01"], "an encoder that accepts a value it cannot represent (or a decoder using another mask) silently changes the stored edge", kind="FLOW")
 def c25_2(cx):
     """PackedQueryEdge::new returns None if ingredient > INGREDIENT_MASK or generation > GENERATION_MASK, else stores index verbatim and generation | (ingredient << INGREDIENT_SHIFT); edge() decodes index, metadata & GENERATION_MASK, metadata >> INGREDIENT_SHIFT; with_tag clears then sets bit 31; tag() tests it; key() clears it."""
     n = cx.fn(r"^zalsa_local::PackedQueryEdge::new$")
@@ -214,7 +214,7 @@ T_PACKED = "zalsa_local::PackedQueryEdge"
 T_WIDE = "zalsa_local::QueryEdge"
 
 
-@ob("C25.3", ["C25", "C23"], "a reader (or the destructor) that interprets the allocation with another header or edge type than the writer used reads edges at the wrong offset / with the wrong width", kind="TABLE (writer/reader/destructor agreement on generic instantiations)")
+@ob("C25.3", ["C25", "C23", "C01"], "a reader (or the destructor) that interprets the allocation with another header or edge type than the writer used reads edges at the wrong offset / with the wrong width", kind="TABLE (writer/reader/destructor agreement on generic instantiations)")
 def c25_3(cx):
     """OriginAndExtra: for each (extra?, packed|wide) combination the constructor, origin() and Drop use the same SliceWithHeader<H, E> instantiation: H = QueryRevisionsExtraInner iff the tag says WithExtra, E = PackedQueryEdge iff the tag says Packed; QueryEdges::packed/wide wraps the matching slice; allocate_derived_with_header returns (Packed, packed allocation) / (Wide, wide allocation), spills the already packed prefix through PackedQueryEdge::edge in order, then the offending edge, then the rest; metadata = number of edges."""
     lay = r"OriginAndExtraTag::layout\("
@@ -309,7 +309,7 @@ def c23_3(cx):
     ret_cases(cx, r, [(r"fetch_hot\(.*\)@Some\.0$", [], "fetch_hot's memo"), (r"fetch_cold\(.*\)@Some\.0$", [], "fetch_cold's memo")], [], "refresh_memo")
 
 
-@ob("C25.4", ["C25", "C11", "C06"], "an iterator that decodes packed slots as wide ones, walks backwards when asked forwards, or classifies an edge by anything but its tag hands dependents a different edge list than was stored", kind="FLOW+ONLYIF (reader table)")
+@ob("C25.4", ["C25", "C11", "C06", "C01"], "an iterator that decodes packed slots as wide ones, walks backwards when asked forwards, or classifies an edge by anything but its tag hands dependents a different edge list than was stored", kind="FLOW+ONLYIF (reader table)")
 def c25_4(cx):
     """QueryEdges::iter keeps the representation (Packed slice -> Packed iterator, Wide -> Wide); QueryEdgeIter::next / next_back step the underlying slice iterator in the same direction and decode packed slots with PackedQueryEdge::edge; len() is the slice length; inputs() yields edge.key() exactly for kind()==Input; iter_outputs yields exactly kind()==Output of the wide slice (packed origins hold no outputs: C25.2); output_edges maps with QueryEdge::key."""
     it = cx.fn(r"^zalsa_local::QueryEdges::<'a>::iter$")
